@@ -16,6 +16,7 @@ V_ENSURES(g_last_read == __CPROVER_return_value)
 V_ENSURES(__CPROVER_return_value < 0 || (g_fpos[G_IX(__fd)] == V_OLD(g_fpos[G_IX(__fd)]) + (g_off_t)__CPROVER_return_value && g_rd_bytes[G_IX(__fd)] == V_OLD(g_rd_bytes[G_IX(__fd)]) + (size_t)__CPROVER_return_value))
 V_ENSURES(__CPROVER_return_value >= 0 || (g_fpos[G_IX(__fd)] == V_OLD(g_fpos[G_IX(__fd)]) && g_rd_bytes[G_IX(__fd)] == V_OLD(g_rd_bytes[G_IX(__fd)])))
 V_ENSURES((!((__CPROVER_return_value == -1 || (size_t)__CPROVER_return_value < __nbytes)) || (g_io_failed == 1)) && (((__CPROVER_return_value == -1 || (size_t)__CPROVER_return_value < __nbytes)) || (g_io_failed == V_OLD(g_io_failed))))
+V_ENSURES(G_FRAME(g_fpos, __fd) && G_FRAME(g_rd_bytes, __fd))   /* the ghost state of other descriptors is untouched */
 ;
 
 ssize_t write(int __fd, const void *__buf, size_t __n)
@@ -26,6 +27,7 @@ V_ENSURES(__CPROVER_return_value < 0 || (g_fpos[G_IX(__fd)] == V_OLD(g_fpos[G_IX
 V_ENSURES(__CPROVER_return_value >= 0 || (g_fpos[G_IX(__fd)] == V_OLD(g_fpos[G_IX(__fd)]) && g_wr_bytes[G_IX(__fd)] == V_OLD(g_wr_bytes[G_IX(__fd)])))
 V_ENSURES((!((__CPROVER_return_value == -1 || (size_t)__CPROVER_return_value < __n)) || (g_io_failed == 1)) && (((__CPROVER_return_value == -1 || (size_t)__CPROVER_return_value < __n)) || (g_io_failed == V_OLD(g_io_failed))))
 V_ENSURES((!((__fd == g_win_fd && __CPROVER_return_value > 0 && !(V_OLD(g_fpos[G_IX(__fd)]) >= g_win_lo && V_OLD(g_fpos[G_IX(__fd)]) + (g_off_t)__CPROVER_return_value <= g_win_hi))) || (g_win_bad == 1)) && (((__fd == g_win_fd && __CPROVER_return_value > 0 && !(V_OLD(g_fpos[G_IX(__fd)]) >= g_win_lo && V_OLD(g_fpos[G_IX(__fd)]) + (g_off_t)__CPROVER_return_value <= g_win_hi))) || (g_win_bad == V_OLD(g_win_bad))))
+V_ENSURES(G_FRAME(g_fpos, __fd) && G_FRAME(g_wr_bytes, __fd))   /* the ghost state of other descriptors is untouched */
 ;
 
 /* with _FILE_OFFSET_BITS=64 glibc renames lseek to lseek64 (asm label); the contract goes there */
@@ -36,5 +38,6 @@ V_ENSURES((!(__CPROVER_return_value == -1) || (g_io_failed == 1)) && ((__CPROVER
 V_ENSURES(((!(__CPROVER_return_value == -1) || (g_fpos[G_IX(__fd)] == V_OLD(g_fpos[G_IX(__fd)]))) && ((__CPROVER_return_value == -1) || (g_fpos[G_IX(__fd)] == (g_off_t)__CPROVER_return_value))))
 V_ENSURES(__CPROVER_return_value == -1 || __whence != SEEK_SET || __CPROVER_return_value == __offset)
 V_ENSURES(__CPROVER_return_value == -1 || __whence != SEEK_CUR || (g_off_t)__CPROVER_return_value == V_OLD(g_fpos[G_IX(__fd)]) + (g_off_t)__offset)
+V_ENSURES(G_FRAME(g_fpos, __fd))   /* the ghost state of other descriptors is untouched */
 ;
 #endif
